@@ -180,24 +180,29 @@ def make_case(rng, i, ctx):
         for j in range(x.shape[-1]):
             points.append({'e': ki + 1, 'x': [rat(float(x[j]))] if D == 1 else [rat(float(x[0, j])), rat(float(x[1, j]))]})
     ysorted = [o for key in sorted(keys) for o in ys[key]]
-    W = {'k': 'diag', 'dy': [rat(float(o.dvalue)) for o in ysorted]} if corr_mode == 'none' else {'k': 'chol', 'L': fitgen.mat(L)}
-    pri = []
-    if priors is not None:
-        pr = res.priors
-        items = sorted(pr.items()) if isinstance(pr, dict) else list(enumerate(pr))
-        # operands of the propagation follow the order in which the priors were handed in
-        items = list(pr.items()) if isinstance(pr, dict) else list(enumerate(pr))
-        given = priors if isinstance(priors, dict) else dict(enumerate(priors))
-        for k, po in items:
-            po.gamma_method()
-            pri.append({'pos': int(k) + 1, 'o': project_obs(po), 'v': rat(float(po.value)), 'dv': rat(float(po.dvalue)),
-                        's': given[k] if isinstance(given[k], str) else ''})
-    rec = fitgen.fit_result_record(res, corr_mode != 'none')
-    rec['ncov'] = int(min(o.N for o in ysorted))
+
+    def build(cid, res, L):
+        """the fit event: the weights are the errors the data objects carry NOW (and the Cholesky factor built from them)"""
+        W = {'k': 'diag', 'dy': [rat(float(o.dvalue)) for o in ysorted]} if corr_mode == 'none' else {'k': 'chol', 'L': fitgen.mat(L)}
+        pri = []
+        if priors is not None:
+            pr = res.priors
+            # operands of the propagation follow the order in which the priors were handed in
+            items = list(pr.items()) if isinstance(pr, dict) else list(enumerate(pr))
+            given = priors if isinstance(priors, dict) else dict(enumerate(priors))
+            for k, po in items:
+                po.gamma_method()
+                pri.append({'pos': int(k) + 1, 'o': project_obs(po), 'v': rat(float(po.value)), 'dv': rat(float(po.dvalue)),
+                            's': given[k] if isinstance(given[k], str) else ''})
+        rec = fitgen.fit_result_record(res, corr_mode != 'none')
+        rec['ncov'] = int(min(o.N for o in ysorted))
+        return {'id': cid, 'ev': 'fit', 'mode': 'fit', 'n': n, 'linear': True, 'method': method, 'numgrad': numgrad, 'exprs': exprs, 'points': points,
+                'y': [project_obs(o) for o in ysorted], 'W': W, 'priors': pri, 'res': rec}, rec
+
     cid = 'fit-%04d-n%dD%d-k%d-%s-%s-%s-%s%s' % (i, n, D, nkeys, kind, prior_form, corr_mode, method.replace('-', ''), '-num' if numgrad else '')
+    first, rec = build(cid, res, L)
     frame = frame_event(cid + '-frame', 'least_squares leaves the data and prior observables as they were', held['before'], held['args'])
-    cases = [{'id': cid, 'ev': 'fit', 'mode': 'fit', 'n': n, 'linear': True, 'method': method, 'numgrad': numgrad, 'exprs': exprs, 'points': points,
-              'y': [project_obs(o) for o in ysorted], 'W': W, 'priors': pri, 'res': rec}]
+    cases = [first]
     if i % 2 == 0:
         cases.append(frame)
     ctx.nontrivial.add((n, D, nkeys, kind, prior_form, corr_mode, method, numgrad))
@@ -217,6 +222,21 @@ def make_case(rng, i, ctx):
             if 'did not converge' not in str(e):
                 cases.append({'id': cid + '-perm', 'ev': 'same', 'what': 'independent of the order of points and keys', 'rtol': '1/1000000',
                               'a': {'k': 'ok', 'p': rec['p']}, 'b': {'k': 'exc', 't': type(e).__name__}})
+    # history: the SAME data objects are analysed again with other parameters (their errors change by different factors) and the SAME request is
+    # made again - the weights of a fit are the errors the data carry at the time of the call, nothing remembered from an earlier fit
+    if (corr_mode == 'estimated' and method in ('Levenberg-Marquardt', 'migrad')) or (i % 3 == 1 and corr_mode == 'none' and method == 'Levenberg-Marquardt'):
+        try:
+            for j, o in enumerate(ysorted):
+                o.gamma_method(S=[0.0, 4.0, 1.0][j % 3], tau_exp=[0.0, 0.0, 3.0][j % 3])
+            L2 = None
+            if corr_mode == 'estimated':
+                corr2 = pe.covariance(ysorted, correlation=True)
+                L2 = pe.obs.invert_corr_cov_cholesky(corr2, np.diag(1 / np.array([o.dvalue for o in ysorted])))
+            res_b = _quiet(lambda: run(keys, ident))
+            cases.append(build(cid + '-reanalysed', res_b, L2)[0])
+        except Exception as e:  # noqa: BLE001
+            if 'did not converge' not in str(e):
+                cases.append({'id': cid + '-reanalysed', 'ev': 'fit', 'res': {'k': 'exc', 't': type(e).__name__}})
     return cases
 
 
